@@ -66,7 +66,7 @@ type Stats struct {
 	Divergences int
 	Redraws     int
 	Capped      string
-	LockEdges   map[[2]string]bool
+	LockEdges   map[string]bool // "held -> acquired"
 	Races       map[string]Race
 	Findings    []Finding
 }
@@ -80,7 +80,7 @@ type Finding struct {
 }
 
 func NewStats() *Stats {
-	return &Stats{Outcomes: map[string]int{}, LockEdges: map[[2]string]bool{}, Races: map[string]Race{}}
+	return &Stats{Outcomes: map[string]int{}, LockEdges: map[string]bool{}, Races: map[string]Race{}}
 }
 
 func (st *Stats) Merge(o *Stats) {
@@ -107,7 +107,8 @@ func (st *Stats) Merge(o *Stats) {
 	st.Findings = append(st.Findings, o.Findings...)
 }
 
-func (st *Stats) record(x *Execution) {
+// Record adds one execution to the statistics.
+func (st *Stats) Record(x *Execution) {
 	st.Executions++
 	st.Points += len(x.Points)
 	if len(x.Points) > st.MaxPoints {
@@ -117,7 +118,7 @@ func (st *Stats) record(x *Execution) {
 		st.Outcomes[x.Outcome]++
 	}
 	for _, e := range x.LockEdges {
-		st.LockEdges[e] = true
+		st.LockEdges[e[0]+" -> "+e[1]] = true
 	}
 	add := func(kind, what string) {
 		if len(st.Findings) < 20 {
@@ -218,7 +219,7 @@ func (e *Explorer) Explore(prefix []int, want []string) {
 		e.Stats.Capped = "nondeterministic replay: " + x.Diverged
 		return
 	}
-	e.Stats.record(x)
+	e.Stats.Record(x)
 	if x.Fatal() {
 		e.FatalSeen = true
 		return
@@ -246,7 +247,7 @@ func (e *Explorer) Explore(prefix []int, want []string) {
 // RootTasks runs the root execution and returns it together with the first-level alternative prefixes.
 func (e *Explorer) RootTasks() (*Execution, [][]int) {
 	x := e.runStable(nil, nil)
-	e.Stats.record(x)
+	e.Stats.Record(x)
 	var out [][]int
 	if x.Fatal() {
 		return x, nil
@@ -268,10 +269,11 @@ func (e *Explorer) RootTasks() (*Execution, [][]int) {
 }
 
 // CyclesIn finds cycles in the lock-order graph (edges held -> acquiring).
-func CyclesIn(edges map[[2]string]bool) [][]string {
+func CyclesIn(edges map[string]bool) [][]string {
 	adj := map[string][]string{}
-	for e := range edges {
-		if e[0] == e[1] {
+	for es := range edges {
+		e := strings.SplitN(es, " -> ", 2)
+		if len(e) != 2 || e[0] == e[1] {
 			continue
 		}
 		adj[e[0]] = append(adj[e[0]], e[1])
